@@ -4,6 +4,7 @@ Besides the configuration read by tools/check.py this file carries the mutation 
 
     python3 tools/props/c20.py selftest            # all built-in mutations
     python3 tools/props/c20.py selftest floor_div  # one of them
+    python3 tools/props/c20.py selftest-sched      # interleaving-dependent mutation: yield hook + forced schedules
 
 which copies /repo to /tmp/c20_mut (never touching /repo), applies a mutation there, builds a temporary copy of the
 harness crate against the copy, runs harness + extracted model/oracle and reports what is flagged; everything it
@@ -23,14 +24,22 @@ RULE = ("harness c20, every record produced by the real multi-threaded entry poi
         "single-threaded full preparation, garbage-prefilled receiver; 20004 ten circuit wrappers x thread counts vs single-threaded raw limbs; "
         "20005 N threads on one shared Module + prepared keys + read-only operands with private scratch (nested multi-threaded calls) vs alone; "
         "20006 addresses of the windows of the real Scratch::split_mut; 20007 the documented scratch sizing with nothing added. "
+        "With the harness feature c20hook (yield hook work/proposed_hooks/c20_yield.diff in /repo): 20008/20009 the (site, thread_idx, item) "
+        "events of an undisturbed evaluation / preparation, grouped by thread_idx, predicted from chunks / chunks_prepare; "
+        "20010/20011/20012 FORCED schedules (turn-based scheduler in the hook callback: one worker at a time, the next one chosen by policy "
+        "0 sequential, 1 reverse, 2/3 round robin up/down one item at a time, 4 last thread first, 5 random, 6 zig-zag, 7 random bursts, "
+        "random stream in the record): events in grant order predicted by Model forced_sched run through the small-step `exec`, output "
+        "bytes compared with the single-threaded entry point; a forced schedule is distinct when its (kind, thread sequence) is. "
         "distinct = distinct (op, params) lines")
 ASSUMPTIONS = [
     "per-item results do not depend on the contents of the thread's scratch window (hypothesis Hg of the scheduling theorems; it is C11/C12's conclusion, here only observed: scratch is pre-filled with 0xa5 in 20003/20004)",
     "the model's threads interact only through the output slots and their private scratch: real data races inside Module (`unsafe impl Sync`), in backend handles or lazily initialised statics are outside the Gallina model (named gap; exercised only by 20004/20005 runs)",
-    "OS scheduling is not controlled (no yield hook in /repo): adversarial interleavings are covered by the theorem, on the implementation only by oversubscription (threads up to 2*cores, nested scopes)",
+    "without the harness feature c20hook OS scheduling is not controlled: adversarial interleavings are covered by the theorem, on the implementation only by oversubscription (threads up to 2*cores, nested scopes); with it, forced schedules serialise the workers at item granularity (one yield point per item, at the top of the loop body): interleavings INSIDE one item's computation are still whatever the OS produces",
+    "forced schedules: the policy function `pick` exists twice (Model/C20Threads.v and the scheduler in harness/src/bin/c20.rs); a disagreement shows as a correspondence diff on the event sequence, never as a silent pass",
 ]
 TRUSTED = ["std::thread::scope joins every spawned thread before returning (modelled as: a run is complete when nothing is pending)",
-           "core::slice::chunks_mut / usize::div_ceil semantics as transcribed in Model/C20Threads.v (tied by records 20001/20002)"]
+           "core::slice::chunks_mut / usize::div_ceil semantics as transcribed in Model/C20Threads.v (tied by records 20001/20002)",
+           "c20hook: poulpy_hal::verif::{set_yield_hook, yield_point, YieldDone, yield_spawned} (cfg(poulpy_verif), add-only) report what the closures do: thread_idx / item are the closure's own variables, DONE is a drop guard, SPAWNED is counted in the spawn loop"]
 
 
 ANCHORS = {
@@ -59,6 +68,26 @@ ANCHORS = {
 }
 
 
+HOOK_ANCHORS = {
+    "poulpy-bin-fhe/src/bdd_arithmetic/eval.rs": [
+        "poulpy_hal::verif::yield_point(\n                            poulpy_hal::verif::YIELD_SITE_EVAL,\n                            thread_idx,\n"
+        "                            thread_idx * chunk_size + idx,\n                        );",
+        "poulpy_hal::verif::yield_spawned(poulpy_hal::verif::YIELD_SITE_EVAL, verif_spawned);",
+    ],
+    "poulpy-bin-fhe/src/bdd_arithmetic/ciphertexts/fhe_uint_prepared.rs": [
+        "poulpy_hal::verif::yield_point(poulpy_hal::verif::YIELD_SITE_PREPARE, thread_index, start + local_bit);",
+        "poulpy_hal::verif::yield_spawned(poulpy_hal::verif::YIELD_SITE_PREPARE, verif_spawned);",
+    ],
+}
+# quick-tier floors for the forced schedules (checked by extra() when hook records are present)
+FORCED_FLOORS = {"eval": (30, 3), "prepare_partial": (10, 1)}
+
+
+def hook_in_repo(repo=Path("/repo")):
+    f = repo / "poulpy-hal/src/verif.rs"
+    return f.exists() and "pub fn set_yield_hook" in f.read_text()
+
+
 def translate(ctx):
     """regenerate coq/Gen/C20_gen.v (the alignment constant read from the source) and check that the source lines the
     hand-written model transcribes are still there (a missing anchor is reported, the correspondence check decides)"""
@@ -77,10 +106,15 @@ def translate(ctx):
     for rel, anchors in ANCHORS.items():
         src = (repo / rel).read_text() if (repo / rel).exists() else ""
         missing += [f"{rel}: {a}" for a in anchors if a not in src]
+    hook = hook_in_repo(repo)
+    if hook:
+        for rel, anchors in HOOK_ANCHORS.items():
+            src = (repo / rel).read_text() if (repo / rel).exists() else ""
+            missing += [f"{rel}: {a}" for a in anchors if a not in src]
     if missing:
         ctx.notes.append("source drift: lines transcribed by Model/C20Threads.v no longer found: " + " | ".join(missing))
     return {"coq/Gen/C20_gen.v": {"DEFAULTALIGN": align}, "anchors_checked": sum(len(v) for v in ANCHORS.values()),
-            "anchors_missing": missing}
+            "anchors_missing": missing, "yield_hook_in_repo": hook}
 
 
 def classify(record):
@@ -91,12 +125,24 @@ def extra(ctx, ofails, notes):
     """coverage statistics and the observation about the documented scratch sizing (not part of the verdict)"""
     cov = {}
     pairs, preps, panics = set(), set(), []
+    forced = {"eval": set(), "prepare_full": set(), "prepare_partial": set()}
+    forced_tc = {"eval": set(), "prepare_full": set(), "prepare_partial": set()}
+    policies, logged = set(), 0
     for f in sorted(ctx.work.glob("records_*.txt")):
         if "replay" in f.name:
             continue
         for line in f.read_text().splitlines():
             code, ps, _, outs = (line.split("#") + ["", "", ""])[:4]
             p = ps.split()
+            if code in ("20008", "20009") and not outs.startswith("PANIC"):
+                logged += 1
+            if code in ("20010", "20011", "20012") and not outs.startswith("PANIC"):
+                q = [int(x, 16) for x in p]
+                threads, pol = (q[3], q[6]) if code == "20010" else (q[1], q[5]) if code == "20011" else (q[2], q[5])
+                kind = "eval" if code != "20011" else ("prepare_partial" if q[3] < 32 else "prepare_full")
+                forced[kind].add((code, outs.split(";")[0]))
+                forced_tc[kind].add(threads)
+                policies.add(pol)
             if code in ("20001", "20002") and len(p) >= 4:
                 pairs.add((int(p[2], 16), int(p[3], 16)))
             elif code == "20003" and len(p) >= 4:
@@ -113,8 +159,19 @@ def extra(ctx, ofails, notes):
                      "fhe_uint_prepare_tmp_bytes is not a multiple of 64, so prepare_custom_multi_thread with the documented "
                      "scratch of threads*tmp_bytes passes its own assert and panics inside split_mut for threads >= 2: "
                      + "; ".join(sorted(set(panics))[:4]))
-    notes.append("gap: no (thread, item range) log exists for the prepare call site without a hook; slot<->bit identity is observed "
-                 "through the per-bit reference instead")
+    if logged or any(forced.values()):
+        cov["c20_hook_logged_runs"] = logged
+        for k in forced:
+            cov[f"c20_forced_schedules_{k}"] = len(forced[k])
+            cov[f"c20_forced_thread_counts_{k}"] = sorted(forced_tc[k])
+        cov["c20_forced_policies"] = sorted(policies)
+        for k, (n, t) in FORCED_FLOORS.items():
+            if len(forced[k]) < n or len(forced_tc[k]) < t:
+                notes.append(f"COVERAGE SHORTFALL: forced schedules '{k}': {len(forced[k])} distinct over {len(forced_tc[k])} thread counts "
+                             f"(floor {n} over {t})")
+    else:
+        notes.append("gap: harness built without the feature c20hook: no (thread, item) event log and no forced schedules; "
+                     "slot<->item identity is observed through per-item references instead")
     return cov
 
 
@@ -242,7 +299,131 @@ def selftest(names):
     return 0 if all(r.get("detected") for r in results.values()) else 1
 
 
+# ----------------------------------------------------------------------------------------------------------------
+# schedule self-test: a mutation that is wrong only under some interleavings (never touches /repo)
+#   the item index comes from a shared, non-atomically updated cursor (`static mut`) instead of the chunk formula, and the
+#   output slot is addressed through that index: a worker that runs its whole chunk undisturbed computes the right
+#   indices; as soon as two workers alternate, one of them continues from the other's cursor, so two workers write the same
+#   slot and another slot is never written.
+_CURSOR = [
+    (EVAL, "fn eval_level<M, R, G, BE: Backend>(", "static mut C20_MUT_CURSOR: usize = 0;\n\nfn eval_level<M, R, G, BE: Backend>("),
+    (EVAL, "        thread::scope(|scope| {\n", "        let out_base: usize = out.as_mut_ptr() as usize;\n        thread::scope(|scope| {\n"),
+    (EVAL, "                        let (nodes, state_size) = circuit.get_circuit(thread_idx * chunk_size + idx);\n",
+     """                        let item: usize = unsafe {
+                            if idx == 0 {
+                                C20_MUT_CURSOR = thread_idx * chunk_size;
+                            } else {
+                                C20_MUT_CURSOR += 1;
+                            }
+                            C20_MUT_CURSOR % circuit.output_size()
+                        };
+                        let out_i: &mut GLWE<O> = unsafe { &mut *(out_base as *mut GLWE<O>).add(item) };
+                        let (nodes, state_size) = circuit.get_circuit(item);
+"""),
+]
+# second one, of the "lazily initialised shared state" kind: the first worker to arrive publishes the base index, written as
+# if that were always worker 0.  Right whenever worker 0 passes its first yield point first (it is spawned first: nearly
+# always so on an idle machine); wrong for every schedule that starts with another worker.
+_LAZY_BASE = [
+    (EVAL, "fn eval_level<M, R, G, BE: Backend>(", "static mut C20_MUT_BASE: usize = usize::MAX;\n\nfn eval_level<M, R, G, BE: Backend>("),
+    (EVAL, "        thread::scope(|scope| {\n", "        unsafe {\n            C20_MUT_BASE = usize::MAX;\n        }\n        thread::scope(|scope| {\n"),
+    (EVAL, "                        let (nodes, state_size) = circuit.get_circuit(thread_idx * chunk_size + idx);\n",
+     """                        let item: usize = unsafe {
+                            if C20_MUT_BASE == usize::MAX {
+                                C20_MUT_BASE = thread_idx * chunk_size;
+                            }
+                            (C20_MUT_BASE + thread_idx * chunk_size + idx) % circuit.output_size()
+                        };
+                        let (nodes, state_size) = circuit.get_circuit(item);
+"""),
+]
+SCHED_MUTATIONS = {"shared_cursor": _CURSOR, "lazy_base": _LAZY_BASE}
+POLICY_NAMES = ["sequential", "reverse", "round-robin up", "round-robin down", "last-thread-first", "random", "zig-zag", "random bursts"]
+
+
+def selftest_sched(names, runs=3):
+    """hook + mutation on a copy of /repo, harness with the feature c20hook: which records flag it, run by run"""
+    rc = 0
+    for name in names:
+        print(f"== schedule mutation {name}")
+        rc |= _selftest_sched_one(SCHED_MUTATIONS[name], runs)
+    return rc
+
+
+def _selftest_sched_one(mutation, runs):
+    verif = Path(__file__).resolve().parent.parent.parent
+    drv = verif / "ocaml" / "gen" / "c20" / "drv"
+    if not drv.exists():
+        print("run `python3 tools/check.py C20` first (the extracted driver is needed)")
+        return 2
+    res = {}
+    try:
+        _cleanup()
+        shutil.copytree("/repo", MUT, ignore=shutil.ignore_patterns("target", ".git"))
+        if not hook_in_repo(MUT):
+            rc, out = _sh(["git", "apply", str(verif / "work" / "proposed_hooks" / "c20_yield.diff")], cwd=MUT)
+            assert rc == 0, "hook diff does not apply to /repo: " + out
+        for rel, old, new in mutation:
+            src = (MUT / rel).read_text()
+            assert src.count(old) == 1, f"anchor not found exactly once in {rel}: {old[:60]}"
+            (MUT / rel).write_text(src.replace(old, new))
+        MUT_H.mkdir()
+        shutil.copytree(verif / "harness" / "src", MUT_H / "src")
+        shutil.copytree(verif / "harness" / ".cargo", MUT_H / ".cargo")
+        for f in ["Cargo.lock", "rust-toolchain.toml"]:
+            if (verif / "harness" / f).exists():
+                shutil.copy(verif / "harness" / f, MUT_H / f)
+        cargo = (verif / "harness" / "Cargo.toml").read_text().replace('"/repo/', f'"{MUT}/')
+        if "c20hook" not in cargo:
+            cargo = cargo.replace("[features]\n", "[features]\nc20hook = []\n")
+        (MUT_H / "Cargo.toml").write_text(cargo)
+        rc, out = _sh(["cargo", "build", "--offline", "--release", "--features", "avx,c20hook", "--bin", "c20"], cwd=MUT_H)
+        if rc != 0:
+            print(out[-3000:])
+            return 2
+        prev_forced = None
+        for run in range(runs):
+            recs = MUT_H / f"records_run{run}.txt"
+            rc, out = _sh([str(MUT_H / "target" / "release" / "c20"), "gen", "quick", "1", str(recs)])
+            if rc != 0:
+                res[f"run{run}"] = {"harness": f"exit {rc}", "log": out[-800:]}
+                continue
+            rc, out = _sh([str(drv), str(recs)])
+            lines = recs.read_text().splitlines()
+            tot, bad, pol_tot, pol_bad = {}, {}, {}, {}
+            for l in out.splitlines():
+                v = l.split(" ", 3)
+                if len(v) < 3 or not v[0].isdigit():
+                    continue
+                code, ps = lines[int(v[0]) - 1].split("#")[:2]
+                flagged = (v[1] != "ok") or (v[2] == "0")
+                tot[code] = tot.get(code, 0) + 1
+                bad[code] = bad.get(code, 0) + flagged
+                if code == "20010":
+                    q = [int(x, 16) for x in ps.split()]
+                    # the mutation can only show when >= 2 workers exist and one of them has >= 2 items
+                    if q[3] >= 2 and q[2] > 2 and -(-q[2] // q[3]) >= 2 and -(-q[2] // -(-q[2] // q[3])) >= 2:
+                        pol_tot[q[6]] = pol_tot.get(q[6], 0) + 1
+                        pol_bad[q[6]] = pol_bad.get(q[6], 0) + flagged
+            forced_lines = [l for l in lines if l.split("#", 1)[0] in ("20010", "20012")]
+            res[f"run{run}"] = {
+                "unforced_flagged/total": {c: f"{bad[c]}/{tot[c]}" for c in ("20001", "20002", "20004", "20008") if c in tot},
+                "forced_flagged/total": {c: f"{bad[c]}/{tot[c]}" for c in ("20010", "20012") if c in tot},
+                "forced_20010_by_policy(>=2 workers, a chunk of >=2)": {POLICY_NAMES[k]: f"{pol_bad[k]}/{pol_tot[k]}" for k in sorted(pol_tot)},
+                "forced_records_identical_to_previous_run": (forced_lines == prev_forced) if prev_forced is not None else None,
+            }
+            prev_forced = forced_lines
+    finally:
+        _cleanup()
+    print(json.dumps(res, indent=1))
+    ok = all(isinstance(r, dict) and "forced_flagged/total" in r and int(r["forced_flagged/total"].get("20010", "0/1").split("/")[0]) > 0
+             for r in res.values())
+    return 0 if ok else 1
+
+
 if __name__ == "__main__":
     if len(sys.argv) >= 2 and sys.argv[1] == "selftest":
         sys.exit(selftest(sys.argv[2:] or list(MUTATIONS)))
+    if len(sys.argv) >= 2 and sys.argv[1] == "selftest-sched":
+        sys.exit(selftest_sched(sys.argv[2:] or list(SCHED_MUTATIONS)))
     print(__doc__)
